@@ -142,6 +142,15 @@ def state_does_not_escape(chk: Check, R: str) -> None:
                 how = escapes(c, p)
                 if how is None:
                     continue
+                if how.startswith('stored'):
+                    # a closure parked on a longer-lived object is a different construct from one that is merely returned
+                    caps = [n for n in sorted(free_names(c.node)) if n in c.env and om.carries(c.env[n], st)]
+                    if caps:
+                        problems.append(('%s keeps a closure over %s (%s)' % (q, ','.join(caps), how), '%s:%d' % (c.module.rel, c.node.lineno),
+                                         'closure %s captures `%s` and is %s: it outlives the eval call, so whoever finds it later '
+                                         '(a cached tree evaluated again) runs its body against the first call\'s op counter, budget and names' % (
+                                             c.qual, ', '.join(caps), how)))
+                    continue
                 cap = []
                 for n in sorted(free_names(c.node)):
                     if n in c.env and om.carries(c.env[n], st):
@@ -232,13 +241,20 @@ def call_role(chk: Check) -> Tuple[str, str, str]:
     g = C.grammar(F)
     T = C.templates(F)
     lm = C.lexmodel(F)
+    from .. import lalr as _lalr
+    short = _lalr.shortest_expansions(g)
+    nts = set(g.nonterminals)
     for t in T.all():
         rhs = t.prod.rhs
-        if len(rhs) == 4 and rhs[0] == 'NAME' and lm.token_texts.get(rhs[1]) == {'('} and lm.token_texts.get(rhs[3]) == {')'} \
-                and t.raises is None and isinstance(t.result, tuple) and t.result[0] == 'new':
+        if len(rhs) < 2 or rhs[0] in nts or lm.token_texts.get(rhs[0]) is not None:
+            continue        # must start with the identifier token (unbounded language)
+        nxt = short.get(rhs[1], ()) if rhs[1] in nts else (rhs[1],)
+        if not nxt or lm.token_texts.get(nxt[0]) != {'('}:
+            continue
+        if t.raises is None and isinstance(t.result, tuple) and t.result[0] == 'new':
             cls, flds = t.result[1], t.result[2]
             nf = [n for n, v in flds if isinstance(v, tuple) and v[:2] == ('tok', '1')]
-            af = [n for n, v in flds if isinstance(v, tuple) and v[:2] == ('symlist', '3')]
+            af = [n for n, v in flds if isinstance(v, tuple) and v[:1] == ('symlist',)]
             if nf and af:
                 F._call_role = (cls, nf[0], af[0])  # type: ignore
                 return F._call_role
